@@ -528,6 +528,22 @@ def oracle(c):
                 out.append(("C19:polygon:radius", "vertex %d lies at distance %r from the centre, get_radius() is %r" % (i, dist, rad_i)))
                 break
         return out
+    if k == "seq":
+        cur = ubq(c["cur"])
+        ops = c.get("ops", "")
+        for (got, want, call) in (("gv", "fv", "get_vertices()"), ("pf", "ff", "Polygon::from(&box)")):
+            if c[got] != c[want]:
+                out.append(("C19:polygon:stale-cache", "after [%s] the box has fields %s but %s returns a polygon that differs from the one of a fresh box with the same fields (first vertex (%r, %r) instead of (%r, %r))" % (
+                    ops, [None if x is None else float(x) for x in cur], call,
+                    float(f64q(int(c[got].split(",")[0]))), float(f64q(int(c[got].split(",")[1]))),
+                    float(f64q(int(c[want].split(",")[0]))), float(f64q(int(c[want].split(",")[1]))))))
+        if cur[2] is not None and c["gc"] != c["fc"]:
+            out.append(("C19:polygon:stale-cache", "after [%s] and a new gen_vertices() the cached polygon of the box with fields %s differs from the one of a fresh box with the same fields" % (ops, [None if x is None else float(x) for x in cur])))
+        # the polygon returned now must be the rotated rectangle of the CURRENT fields (same oracle as for fresh boxes)
+        pseudo = {"kind": "poly", "a": c["cur"], "v": c["gv"], "n": c["n"], "area": c["area"], "radius": c["radius"]}
+        for (key, msg) in oracle(pseudo):
+            out.append((key, "after [%s]: %s" % (ops, msg)))
+        return out
     if k == "kst":
         ab = bits_list(c["a"])
         a = ubq(c["a"])
@@ -602,16 +618,63 @@ def input_part(c):
     k = c["kind"]
     keys = {"eqb": ("a", "b", "k"), "equ": ("a", "b", "k"), "conv": ("a",), "convu": ("a",), "poly": ("a",), "norm": ("a",),
             "inter": ("a", "b"), "far": ("a", "b"), "cost": ("d",), "gate": ("mode", "mc", "thr", "a", "b", "hist"),
-            "baked": ("lu", "mi", "ep", "db"), "vis": ("kind_", "t", "d"), "kst": ("a",)}[k]
+            "baked": ("lu", "mi", "ep", "db"), "vis": ("kind_", "t", "d"), "kst": ("a",), "seq": ("a", "ops")}[k]
     return k + " " + " ".join("%s=%s" % ("kind" if x == "kind_" else x, c[x]) for x in keys)
 
 
 F32_ONE = 0x3F800000
 
 
+def shrink_seq(c, key):
+    """drop operations one at a time, then simplify their arguments and the box, while the same key still fires"""
+    def fires(cand):
+        try:
+            res = run_harness_on([input_part(cand)])
+        except Exception:       # noqa: BLE001
+            return None
+        if res and res[0].get("kind") == "seq" and any(kk == key for kk, _ in oracle(res[0])):
+            return res[0]
+        return None
+    cur = c
+    changed = True
+    while changed:
+        changed = False
+        ops = [o for o in cur["ops"].split(";") if o]
+        for i in range(len(ops)):
+            cand = dict(cur)
+            cand["ops"] = ";".join(ops[:i] + ops[i + 1:])
+            r = fires(cand)
+            if r is not None:
+                cur, changed = r, True
+                break
+    ops = [o for o in cur["ops"].split(";") if o]
+    for i, o in enumerate(ops):
+        if ":" in o and not o.endswith(":N"):
+            for val in (str(F32_ONE), "1073741824"):       # 1.0, 2.0
+                cand = dict(cur)
+                cand["ops"] = ";".join(ops[:i] + [o.split(":")[0] + ":" + val] + ops[i + 1:])
+                r = fires(cand)
+                if r is not None:
+                    cur = r
+                    ops = [x for x in cur["ops"].split(";") if x]
+                    break
+    v = cur["a"].split(",")
+    for i in range(len(v)):
+        cand = dict(cur)
+        w = list(v)
+        w[i] = str(F32_ONE)
+        cand["a"] = ",".join(w)
+        r = fires(cand)
+        if r is not None:
+            cur, v = r, w
+    return cur
+
+
 def shrink(c, key):
     """make the other fields of a failing case simple (1.0 / no angle) as long as the same oracle key still fires"""
     k = c["kind"]
+    if k == "seq":
+        return shrink_seq(c, key)
     if k not in ("eqb", "equ", "conv", "convu", "poly", "kst"):
         return c
     cur = c
@@ -648,6 +711,11 @@ def decode(c):
             d[f] = c[f] if f in ("ab", "ba", "aa", "bb", "k", "n") else float(f32q(int(c[f])))
     if c["kind"] == "norm":
         d["a"] = float(f32q(int(c["a"])))
+    if c["kind"] == "seq":
+        d["ops"] = [o if ":" not in o or o.endswith(":N") else "%s:%r" % (o.split(":")[0], float(f32q(int(o.split(":")[1])))) for o in c["ops"].split(";") if o]
+        d["current_fields"] = [None if x is None else float(x) for x in ubq(c["cur"])]
+        d["get_vertices"] = [float(f64q(int(x))) for x in c["gv"].split(",")]
+        d["fresh_box_get_vertices"] = [float(f64q(int(x))) for x in c["fv"].split(",")]
     return d
 
 
@@ -768,7 +836,7 @@ def run(chk):
             eq_classes[cls] += 1
             if d != 0:
                 nontrivial.add(input_part(c))
-        elif c["kind"] in ("conv", "convu", "poly", "norm", "kst"):
+        elif c["kind"] in ("conv", "convu", "poly", "norm", "kst", "seq"):
             nontrivial.add(input_part(c))
     chk.coverage.update({
         "evaluations": len(cases),
